@@ -33,6 +33,7 @@ class G:
         self.n = 0
         self.enable_loop = enable_loop
         self.max_depth = max_depth
+        self.optional_caller = 40
         self.topdefs = {}
 
     def uid(self, p="v"):
@@ -425,7 +426,7 @@ class G:
                                         "kwonly": [], "kwargs": False}
             dsc.has_caller = {"body_args": bargs, "defs": cdefs}
             info["wants_caller"] = dict(dsc.has_caller)
-        optional = bool(wants_caller) and self.chance(40)
+        optional = bool(wants_caller) and self.chance(self.optional_caller)
         if optional:
             # the def works with and without content: every use of `caller` is guarded by `% if caller:`
             hc = dsc.has_caller
@@ -571,8 +572,9 @@ def mentions_loop(nodes):
 NBYTES = 1200
 
 
-def build(data, features, enable_loop=True, max_depth=4, ndefs=(0, 3), body_len=(2, 7)):
+def build(data, features, enable_loop=True, max_depth=4, ndefs=(0, 3), body_len=(2, 7), optional_caller=40):
     g = G(data, features, enable_loop=enable_loop, max_depth=max_depth)
+    g.optional_caller = optional_caller
     sc = Scope("body")
     nodes = []
     if "def" in g.f:
@@ -586,6 +588,7 @@ def build(data, features, enable_loop=True, max_depth=4, ndefs=(0, 3), body_len=
     return {"body": flatten_seq(nodes)}
 
 
-def programs(features, enable_loop=True, max_depth=4, ndefs=(0, 3), body_len=(2, 7)):
+def programs(features, enable_loop=True, max_depth=4, ndefs=(0, 3), body_len=(2, 7), optional_caller=40):
     return st.binary(min_size=NBYTES, max_size=NBYTES).map(
-        lambda data: build(data, features, enable_loop=enable_loop, max_depth=max_depth, ndefs=ndefs, body_len=body_len))
+        lambda data: build(data, features, enable_loop=enable_loop, max_depth=max_depth, ndefs=ndefs, body_len=body_len,
+                           optional_caller=optional_caller))
